@@ -189,6 +189,17 @@ pub trait AsyncWrite: Sized {
                 Err(_) => (*old(self)).cur().is_prefix_of((*final(self)).cur())
                           && (*final(self)).cur().is_prefix_of((*old(self)).cur() + buf@),
             };
+    // futures-lite AsyncWriteExt::write: one attempt; may accept only part of the slice
+    fn write(&mut self, buf: &[u8]) -> (r: Result<usize, std::io::Error>)
+        ensures
+            (*final(self)).end() == (*old(self)).end(),
+            (*final(self)).end_accepted() == (*old(self)).end_accepted(),
+            (*final(self)).deep() == (*old(self)).deep(), (*final(self)).end_deep() == (*old(self)).end_deep(),
+            (*final(self)).accepted() - (*old(self)).accepted() == (*final(self)).cur().len() - (*old(self)).cur().len(),
+            match r {
+                Ok(n) => n <= buf@.len() && (*final(self)).cur() == (*old(self)).cur() + buf@.subrange(0, n as int),
+                Err(_) => (*final(self)).cur() == (*old(self)).cur(),
+            };
     fn flush(&mut self) -> (r: Result<(), std::io::Error>)
         ensures (*final(self)).end() == (*old(self)).end(), (*final(self)).cur() == (*old(self)).cur(),
             (*final(self)).end_accepted() == (*old(self)).end_accepted(), (*final(self)).accepted() == (*old(self)).accepted(),
@@ -211,6 +222,7 @@ impl<T: AsyncWrite> AsyncWrite for &mut T {
     open spec fn end_deep(&self) -> Seq<u8> { mut_ref_future(*self).end() }
     proof fn resolved(&self) {}
     fn write_all(&mut self, buf: &[u8]) -> (r: Result<(), std::io::Error>) { (**self).write_all(buf) }
+    fn write(&mut self, buf: &[u8]) -> (r: Result<usize, std::io::Error>) { (**self).write(buf) }
     fn flush(&mut self) -> (r: Result<(), std::io::Error>) { (**self).flush() }
     fn close(&mut self) -> (r: Result<(), std::io::Error>) { (**self).close() }
 }
